@@ -116,6 +116,11 @@ func (a *Application) executeTranslationRequest(
 	r.Body = io.NopCloser(bytes.NewReader(openaiBody))
 	r.ContentLength = int64(len(openaiBody))
 
+	// The backend's answer is parsed here, not relayed: it must not be asked, on the client's
+	// behalf, for a content encoding the translator cannot read (most HTTP libraries send
+	// "Accept-Encoding: gzip" by default)
+	r.Header.Del(constants.HeaderAcceptEncoding)
+
 	// Handle path translation if specified
 	if transformedReq.TargetPath != "" {
 		targetPath := util.StripPrefix(transformedReq.TargetPath, constants.DefaultOllaProxyPathPrefix)
